@@ -470,6 +470,10 @@ class C02:
         objs += [b"f" * 4096, bytes(range(256)) * 17, bytearray(bytes(range(255, -1, -1)) * 20), "g" * 5000, "\u00e9" * 3000,
                  [bytes([65 + i]) * 300 for i in range(20)], [bytearray([97 + i]) * 700 for i in range(12)], ["h%d" % i * 150 for i in range(30)],
                  {"k": b"N." * 3000, b"i" * 1000: ("j" * 4095, b"k" * 4097)}, [bytes(range(256)) * 120, b"l" * 60000, "m" * 40000]]
+        # long tuples (64, 100, 300, 1000+ items) that are NOT the last thing decoded: nested, shared, followed by further values
+        t100, t64 = tuple(range(1000, 1100)), tuple("s%d" % i for i in range(64))
+        objs += [{"head": t100, "tail": ["x", "y"], "again": t100}, [t64, 1, 2, t64], [tuple(range(65)), [tuple(range(300))], {"k": tuple(range(64))}, "after"],
+                 (tuple(range(1001)), "after", (tuple(range(63)), tuple(range(64)), 5)), [tuple([i]) * 70 for i in range(5)]]
         late = ["s%d" % i for i in range(300)]
         objs.append(late + [late[299], late[0], late[256]])          # a GET with a two-byte memo index
         x = [1, 2]
